@@ -181,3 +181,46 @@ Example C14_ex_concrete_unfinished :
   | Ret _ _ => False
   end.
 Proof. vm_compute. reflexivity. Qed.
+
+(* ------------------------------------------------------------------------------------------------
+   Round 5: the statement left open above (C14_lz4f_st_reads_exactly_full_statement: the ST loop consumes exactly
+   the frame, because LZ4F's hints never exceed what is left of it) is FALSE of the code and of the models.
+   lib/lz4frame.c, dstage_storeCBlock ("need more input") adds the block-checksum size to a target that already
+   contains it; with block checksums a compressed block arriving in two pieces yields a hint 4 bytes too large, and
+   on a frame without content checksum whose last data block is such a block the hint ends 4 bytes beyond the frame.
+   C14_hint_within_frame_refuted: a 30-byte valid frame on which Model.FrameD's first call, having consumed 16
+   bytes, returns the hint 18 although 14 bytes are left (vm_compute witness, Proofs/FrameDHint.v).
+   At loop level (witness too large for vm_compute in a proof file: a 65.9 KB frame, 142 s; checked by the extracted
+   model on every run of c14.py, kind stloop_f21, against the real binary): LZ4IO_decompressLZ4F of the single-thread
+   build freads 4 bytes of what follows such a frame and drops them - finding F21: `lz4 -d` (ST) of two concatenated
+   frames made with -BX --no-frame-crc exits 1 after the first frame.  Hence Io.lz4f_st's "reads exactly the frame"
+   is NOT an observable-preserving abstraction for those frames; C14_lz4f_st_concrete_sound (which allows [lost])
+   is the statement that holds.  Corrected claim, NOT proved (C14_lz4f_st_reads_exactly_corrected_full_statement):
+   lost = [] when the frame has no block checksum or has a content checksum. *)
+From LZ4V Require Proofs.FrameDHint.
+
+Definition C14_lz4f_st_reads_exactly_corrected_full_statement : Prop :=
+  forall (bdec : list byte -> list byte -> option (list byte)) fuel ifuel test fl d0 s s' content rest d r1,
+    IoLz4fRefine.dctx_fresh d0 -> bytes_ok (s_in s) = true ->
+    IoLz4f.lz4f_st_c bdec fuel ifuel false test fl d0 s = Ret tt s' ->
+    frame_decode bdec false [] (IoLz4fRefine.magic4 ++ s_in s) = Some (content, rest) ->
+    parse_desc (s_in s) = Some (d, r1) -> (f_bcrc d = false \/ f_ccrc d = true) ->
+    s_in s' = rest.
+
+(* F21 is repaired in /repo: the refutation C14_hint_within_frame_refuted of the unrepaired code is gone; the witness frame now
+   gets the exact hint (14 bytes left, 14 asked for).  hint_within_frame_statement itself is open again (not proved). *)
+Example C14_ex_hint_witness :
+  frame_decode spec_decode false [] FrameDHint.hw_frame = Some ([1; 2; 3; 4; 5; 6; 7; 8; 9; 10], []) /\
+  bytes_ok FrameDHint.hw_frame = true /\ FrameD.zlen FrameDHint.hw_frame = 30 /\
+  let r := snd (FrameD.decompress spec_decode FrameD.dctx_init (FrameD.ztake 16 FrameDHint.hw_frame) 100 (FrameD.mkO false false false)) in
+  FrameD.r_consumed r = 16 /\ FrameD.r_ret r = 14.
+Proof. exact FrameDHint.hint_witness. Qed.
+
+(* F21, as a statement about the OLD hint formula of dstage_storeCBlock (the current model and code use the repaired one):
+   in the state the 30-byte witness frame reaches after 16 bytes, the old formula gives 18 although 14 bytes are left. *)
+Theorem C14_old_storeCBlock_hint_refuted :
+  let s := fst (FrameD.decompress spec_decode FrameD.dctx_init (FrameD.ztake 16 FrameDHint.hw_frame) 100 (FrameD.mkO false false false)) in
+  FrameD.d_stage s = FrameD.StoreCBlock /\
+  (FrameD.d_tmpInTarget s - FrameD.d_tmpInSize s) + FrameD.bcsize s + FD_BHSize = 18 /\ FrameD.zlen FrameDHint.hw_frame - 16 = 14.
+Proof. exact FrameDHint.old_storeCBlock_hint_exceeds_frame. Qed.
+Print Assumptions C14_old_storeCBlock_hint_refuted.
